@@ -11,6 +11,7 @@ import (
 	"go/types"
 	"math/big"
 	"sort"
+	"strings"
 
 	"golang.org/x/tools/go/ssa"
 )
@@ -190,6 +191,26 @@ func (w *Worker) assumeRange256(t *Term) {
 	w.assume(w.tc.And(w.tc.IntCmp(OIntLe, w.tc.IntConst64(0), t), w.tc.IntCmp(OIntLt, t, w.tc.IntConst(two256))))
 }
 
+// blobKey identifies a blob by content (concrete byte values / term identities),
+// so copies of a marshalled blob are still recognised.
+func blobKey(data []value) string {
+	var sb strings.Builder
+	for _, b := range data {
+		switch x := b.(type) {
+		case uint64:
+			sb.WriteByte(byte(x))
+			if x == 0xFF {
+				sb.WriteByte(0)
+			}
+		case *Term:
+			fmt.Fprintf(&sb, "\xff\x01%d;", x.ID)
+		default:
+			sb.WriteString("\xff\x02?")
+		}
+	}
+	return sb.String()
+}
+
 func (w *Worker) cborMarshal(src iface) []value {
 	if src.t == nil {
 		b := []value{uint64(0xF6)}
@@ -201,9 +222,9 @@ func (w *Worker) cborMarshal(src iface) []value {
 	// remember for Unmarshal (deep snapshot: the value may be mutated afterwards)
 	rec := &cborRec{t: src.t, v: w.deepCopy(src.v, map[*value]*value{})}
 	if w.cborBlobs == nil {
-		w.cborBlobs = map[*value]*cborRec{}
+		w.cborBlobs = map[string]*cborRec{}
 	}
-	w.cborBlobs[&out[0]] = rec
+	w.cborBlobs[blobKey(out)] = rec
 	return out
 }
 
@@ -270,7 +291,7 @@ func (w *Worker) cborUnmarshal(fr *frame, data []value, dst iface) value {
 	if len(data) == 0 {
 		return w.mkError("cbor model: empty input")
 	}
-	rec := w.cborBlobs[&data[0]]
+	rec := w.cborBlobs[blobKey(data)]
 	if rec == nil {
 		unsupported("cbor.Unmarshal of bytes that were not produced by cbor.Marshal on this path (arbitrary-bytes decoding is outside the model)")
 	}
